@@ -39,6 +39,14 @@ Inductive event :=
 | ESyntax (t : text)     (* the parser rejected the text; pipe mode: (error "scanner"), okStatus cleared *)
 | EUnbal.                (* (error "pipe reader: unbalanced parentheses") *)
 
+(* the texts handed to the parser *)
+Definition frame_texts (es : list event) : list text :=
+  flat_map (fun e => match e with EExec t | ESkip t | ESyntax t => [t] | _ => [] end) es.
+
+(* what of a run reaches stdout: everything but the frames parsed and not executed after exit *)
+Definition visible (es : list event) : list event :=
+  filter (fun e => match e with ESkip _ => false | _ => true end) es.
+
 Definition lexecho (t : text) : list event :=
   match lex_echo t with [] => [] | e => [ELexEcho e] end.
 
@@ -167,6 +175,9 @@ Section Scanner.
     | [] => (s, [])
     | c :: r => let '(s1, e1) := sstep s c in let '(s2, e2) := sfold s1 r in (s2, e1 ++ e2)
     end.
+
+  (* the events of the character machine over a whole text *)
+  Definition stream_events (t : text) : list event := snd (sfold sst0 t).
 
   (* an event after which the reader loop will not read again (done becomes true) *)
   Definition stops (e : event) : bool :=
